@@ -65,6 +65,7 @@ class Parser(Emitter):
         fn = self.functions.get(name)
         not_found = lambda : 0
         result = {'value': None}  # get around 2.7 not having nonlocal
+        builtin = fn is None
         if fn is None:
             fn = formulas.get_for(name)
         if fn is None:
@@ -79,6 +80,11 @@ class Parser(Emitter):
                 if self.debug:
                     traceback.print_exc()
                 result['value'] = formulaserror.from_message(e)
+            value = result['value']
+            if builtin and isinstance(value, float) and (value != value or value in (float('inf'), float('-inf'))):
+                # float arithmetic overflows without raising (DEGREES(1e308), 1/TAN of a tiny angle,
+                # a sum of two huge numbers): an infinity or a NaN is no number of a sheet
+                result['value'] = formulaserror.NUM
 
         def valsetter(new_value):
             if new_value is not None:
